@@ -5,7 +5,8 @@
    destroying thread), whose atomic steps are the critical sections of Gen/CxxSync.v (C15_skeleton_as_modelled);
    [reach m scripts] = reachable under ANY interleaving. *)
 From Coq Require Import String List Bool Arith NArith.
-From KV Require Import Model.CxxSyncIR Model.CxxQueue Gen.CxxSync Proofs.CxxQueueProofs.
+From KV Require Import Model.CxxSyncIR Model.CxxQueue Model.CxxLifetime Model.CxxNotify Gen.CxxSync
+                       Proofs.CxxQueueProofs Proofs.CxxLifetimeProofs Proofs.CxxNotifyProofs.
 Import ListNotations.
 Open Scope list_scope.
 
@@ -139,3 +140,81 @@ Proof.
   vm_compute. intuition.
 Qed.
 Print Assumptions C15_lockset_nonvacuous.
+
+(* ================================================================ one notification per push
+   Source: in every method of threadsafe_queue each push on the container is followed, before the next push or the end of
+   the method, by a notification of the condition variable the consumers wait on, and no notification is conditional
+   (the translator refuses a notify under if/for/while).  Variants without, with a shared, or with a preceding
+   notification are rejected (C15_notify_per_push_nonvacuous); the last one is a purely syntactic restriction -- a
+   notification issued before the push but under the same lock would be harmless -- kept so that the accepted shape is
+   exactly "push, then notify". *)
+Theorem C15_notify_per_push : notify_per_push methods_threadsafe_queue = true /\ notifications_unconditional = true.
+Proof. exact notify_per_push_ok. Qed.
+Print Assumptions C15_notify_per_push.
+
+Example C15_notify_per_push_nonvacuous :
+  let wp := ("wait_and_pop"%string, lookup_ir_nth 1 "wait_and_pop" methods_threadsafe_queue) in
+  notify_per_push [wp; ("push"%string, [Lock "m_mutex"; Write "m_data"; PushBack; Unlock "m_mutex"])] = false /\
+  notify_per_push [wp; ("push2"%string, [Lock "m_mutex"; Write "m_data"; PushBack; Write "m_data"; PushBack; NotifyOne "m_cond"; Unlock "m_mutex"])] = false /\
+  notify_per_push [wp; ("push"%string, [Lock "m_mutex"; NotifyOne "m_cond"; Write "m_data"; PushBack; Unlock "m_mutex"])] = false /\
+  notify_per_push [wp; ("push"%string, [Lock "m_mutex"; Write "m_data"; PushBack; Unlock "m_mutex"; NotifyOne "m_cond"])] = true.
+Proof. exact notify_per_push_rejects. Qed.
+Print Assumptions C15_notify_per_push_nonvacuous.
+
+(* Semantics (Model/CxxNotify.v: notifications explicit, consumers sleep until signalled, no spurious wake-ups, handlers of
+   arbitrary duration): with one notify_one per push, for ANY number of consumers and pushes and ANY schedule, whenever a
+   consumer sleeps without a pending notification every queued item is matched by a consumer that is awake at the
+   predicate or has a notification pending -- and then one of those can move. *)
+Theorem C15_notify_per_push_no_missed_wakeup : forall c p s, nreach NotifyEveryPush c p s ->
+  work_matched s /\
+  (nq s > 0 -> count is_asleep (cons s) > 0 -> exists i, enabled_n NotifyEveryPush s (NCons i) = true).
+Proof. intros c p s R. split; [eapply notify_per_push_no_missed_wakeup; eauto|eapply notify_per_push_someone_moves; eauto]. Qed.
+Print Assumptions C15_notify_per_push_no_missed_wakeup.
+
+(* Notifying only on the empty -> non-empty transition is NOT enough with two consumers: both asleep, two pushes, one
+   notification; then one item stays queued next to a sleeping consumer whom nobody will ever notify, while the only
+   awake consumer is inside its handler (for a rendezvous job: for ever). *)
+Theorem C15_notify_on_transition_only_refuted :
+  exists s, nreach NotifyOnTransition 2 2 s /\ ~ work_matched s /\
+            let s2 := nrun NotifyOnTransition tr_sched_stuck (ninit 2 2) in
+            nreach NotifyOnTransition 2 2 s2 /\ nq s2 = 1 /\ todo s2 = 0 /\ cons s2 = [CHandling; CWaiting false] /\
+            enabled_n NotifyOnTransition s2 NProd = false /\ enabled_n NotifyOnTransition s2 (NCons 1) = false.
+Proof. exact notify_on_transition_only_refuted. Qed.
+Print Assumptions C15_notify_on_transition_only_refuted.
+
+(* ================================================================ object lifetime (derived dispatcher, Model/CxxLifetime.v)
+   The source offers the protocol: shutdown() is protected and idempotent (every join guarded by joinable()), sets the
+   atomic flag, wakes the queue, joins; ~threaded_dispatcher calls it; handle_dispatch is a protected pure virtual. *)
+Theorem C15_shutdown_protocol_shape :
+  existsb (fun p => String.eqb (fst p) "shutdown" && match snd p with AProtected => true | _ => false end) access_threaded_dispatcher = true /\
+  existsb (String.eqb "handle_dispatch") pure_virtual_threaded_dispatcher = true /\
+  lookup_ir "~threaded_dispatcher" methods_threaded_dispatcher = [Call "this" "shutdown"] /\
+  lookup_ir "shutdown" methods_threaded_dispatcher =
+    [Write "m_shutting_down"; Call "m_queue" "wake_up"; Read "m_threads"; JoinAll "m_threads"] /\
+  joins_guarded_by_joinable = true.
+Proof. pose proof shutdown_protocol_shape as H. intuition. Qed.
+Print Assumptions C15_shutdown_protocol_shape.
+
+(* If the derived destructor calls shutdown() first: under every schedule, for every number of workers and producers and
+   every queue content, no virtual call and no running derived handler ever meets a derived part that is not alive; and
+   from the moment the derived part begins to be destroyed every worker has left its loop and none can move. *)
+Theorem C15_lifetime_safe_with_shutdown : forall m sc l, lreach true m sc l ->
+  hazard l = false /\
+  (part l <> PartAlive ->
+     all_done (workers (base l)) = true /\ (forall w, lstep true (TWorker w) l = None) /\ (forall w, is_vcall (base l) w = false)).
+Proof. exact lifetime_safe_with_shutdown. Qed.
+Print Assumptions C15_lifetime_safe_with_shutdown.
+
+(* If it does not (known finding K-C15-2, a design decision of the inherit-and-join-in-the-base-destructor pattern): a
+   schedule on which a worker performs the virtual call handle_dispatch while the derived part is being destroyed. *)
+Theorem C15_lifetime_refuted_without_shutdown :
+  exists m sc l, lreach false m sc l /\ hazard l = true /\ part l = PartDying /\ is_vcall (base l) 0 = false
+                 /\ nth_error (workers (base l)) 0 = Some (WHandling 1%N).
+Proof. exact lifetime_refuted_without_shutdown. Qed.
+Print Assumptions C15_lifetime_refuted_without_shutdown.
+
+Example C15_lifetime_nonvacuous :
+  hazard (lrun false haz_sched_running (linit 1 haz_sc)) = true /\ hazard (lrun true haz_sched_running (linit 1 haz_sc)) = false
+  /\ hazard (lrun true haz_sched_vcall (linit 1 haz_sc)) = false.
+Proof. exact lifetime_refuted_handler_running. Qed.
+Print Assumptions C15_lifetime_nonvacuous.
